@@ -251,6 +251,20 @@ T_C08_OfferedWhenDue ==
       \A x \in UnitsOf(F, n) : (F.it[x].due >= 0 /\ F.now >= F.it[x].due) =>
           (F.it[x].uoff >= 0 \/ Node(n).type = "combiner")
 
+\* an item leaves later than due only while every out-edge its policy permits is unable to accept it.  The only party
+\* that reserves space on an out-edge is the node itself and a reservation granted to it is used in the instant it is
+\* granted, so at the end of an instant "unable to accept" means: full of ITEMS (a reservation that the node left
+\* behind on the edge does not make the edge unable to accept)
+LiveTokF == {t \in 1..Len(F.tk) : F.tk[t].st = "live"}
+T_C08_HeldOnlyIfFull ==
+  e.k = "eoi" => \A n \in 1..NN : (IsWorkNode(n) /\ Node(n).blocking /\ Node(n).type # "combiner") =>
+      LET fin  == {x \in UnitsOf(F, n) : F.it[x].due >= 0 /\ F.now >= F.it[x].due}
+          outs == Node(n).outs
+          mine == {F.tk[t].e : t \in {u \in LiveTokF : F.tk[u].n = n /\ F.tk[u].kind = "put"}}
+          permitted == IF Node(n).policy_out = "FIRST_AVAILABLE" THEN {outs[i] : i \in 1..Len(outs)} ELSE mine
+      IN fin # {} => \A j \in permitted :
+            Edge(j).type \in {"buffer", "fleet"} => Len(e.edges[j].tr) + Len(e.edges[j].rd) >= Edge(j).cap
+
 ---------------------------------------------------------------------------
 (* C09  blocking never discards, non-blocking never waits *)
 T_C09_BlockingNoDiscard == \A n \in 1..NN : Node(n).blocking => F.nd[n].disc = 0
